@@ -502,6 +502,36 @@ bool nonce_agg(const std::vector<std::array<uint8_t, 66>> &pubnonces, uint8_t ou
     ser33_ext(R[0], out66); ser33_ext(R[1], out66 + 33);
     return true;
 }
+bool nonce_gen(const uint8_t rand32[32], const uint8_t *sk32, const uint8_t pk33[33], const uint8_t *aggpk32, const uint8_t *msg, size_t msglen,
+               const uint8_t *extra, size_t extralen, uint8_t k1[32], uint8_t k2[32], uint8_t pubnonce66[66]) {
+    uint8_t rnd[32];
+    if (sk32) {
+        Sha256 a = tagged("MuSig/aux");
+        a.write(rand32, 32); a.finish(rnd);
+        for (int i = 0; i < 32; i++) rnd[i] ^= sk32[i];
+    } else memcpy(rnd, rand32, 32);
+    Sha256 h = tagged("MuSig/nonce");
+    h.write(rnd, 32);
+    uint8_t l = 33; h.write(&l, 1); h.write(pk33, 33);
+    l = aggpk32 ? 32 : 0; h.write(&l, 1); if (aggpk32) h.write(aggpk32, 32);
+    if (msg) {
+        uint8_t pre[9] = {1}; for (int i = 0; i < 8; i++) pre[1 + i] = (uint8_t)((uint64_t)msglen >> (56 - 8 * i));
+        h.write(pre, 9); h.write(msg, msglen);
+    } else { uint8_t z = 0; h.write(&z, 1); }
+    size_t el = extra ? extralen : 0;
+    uint8_t el4[4] = {(uint8_t)(el >> 24), (uint8_t)(el >> 16), (uint8_t)(el >> 8), (uint8_t)el};
+    h.write(el4, 4); if (el) h.write(extra, el);
+    uint8_t *ks[2] = {k1, k2};
+    for (int i = 0; i < 2; i++) {
+        Sha256 t = h; uint8_t ib = (uint8_t)i, d[32];
+        t.write(&ib, 1); t.finish(d);
+        U256 k = scalar_from_be_reduce(d);
+        if (k == U256()) return false;
+        k.to_be(ks[i]);
+        ser33(mulG(k), pubnonce66 + 33 * i);
+    }
+    return true;
+}
 SessionVals session_values(const KeyAggCtx &c, const uint8_t aggnonce66[66], const uint8_t msg32[32], const Pt *adaptor) {
     SessionVals sv; sv.ok = false;
     Pt R1, R2;
